@@ -114,9 +114,9 @@ class ControlFlowTransformer(converter.Base):
       return ast.Dict(keys=[], values=[])
 
     opts_dict = loop_directives[directives.set_loop_options]
-    str_keys, values = zip(*opts_dict.items())
-    keys = [ast.Constant(s) for s in str_keys]
-    values = list(values)
+    # The directive may have been called without any option.
+    keys = [ast.Constant(s) for s in opts_dict]
+    values = list(opts_dict.values())
     return ast.Dict(keys=keys, values=values)
 
   def _create_undefined_assigns(self, undefined_symbols):
